@@ -144,6 +144,10 @@ def run(ctx: Ctx):
         case, impl = rig.gen_cycles_and_run(rng2)
         cases.append((f"cycles:{k}", case))
         pre[f"cycles:{k}"] = impl
+    for k in range(ctx.scale(50, 500)):
+        case, impl = rig.gen_fixrace_and_run(rng2)
+        cases.append((f"fixrace:{k}", case))
+        pre[f"fixrace:{k}"] = impl
     impl_all, lines_all, bounds = [], [], []
     for name, case in cases:
         impl = pre[name] if name in pre else rig.run_impl(case)
@@ -172,6 +176,8 @@ def run(ctx: Ctx):
         blocks = {}
         prev = ""
         maxnow = case["max"]
+        for halt, j, c in case.get("fixrace", []):
+            ctx.count(f"fixrace:halt={halt}:after-{j}-of-{c}-ticks")
         for op in case["ops"]:
             if op[0] == "dmp":
                 ctx.count(f"dmp:p_scan={op[4] / 1000}:predicted-scan={int(op[7])}")
